@@ -45,6 +45,14 @@ pub fn random_req(rng: &mut Pcg64Mcg, max_steps: u64) -> Req {
         8 => (None, Some(1.0)),
         _ => (Some(0.001), Some(0.25)),
     };
+    // a ratio above one is a legal (if odd) setting: with a zero start the temperature must stay
+    // zero whatever the ratio (with a positive start the property fixes the factor 1 - ratio,
+    // which is then negative: not generated)
+    let (kt_finish, kt_ratio) = if kt_start == 0. && rng.gen_range(0, 6) == 0 {
+        (None, Some(pick(rng, &[1.5, 3.0])))
+    } else {
+        (kt_finish, kt_ratio)
+    };
     let max_step = pick(rng, &[2e-5, 0.001, 0.01, 0.05, 0.5, 1.0]);
     let convergence = pick(rng, &[None, None, Some(0.), Some(1e-3), Some(0.5), Some(10.)]);
     Req {
@@ -423,6 +431,49 @@ pub fn edited_suite(rng: &mut Pcg64Mcg, count: usize, max_steps: u64, oor: bool)
             if oor { "out-of-range-start" } else { "edited" },
             gname
         );
+        chain(&desc, gname, st2, &[req], &mut runs);
+    }
+    runs
+}
+
+/// Out-of-range descriptions of relaxed Lennard-Jones crystals: a site coordinate shifted by a
+/// whole lattice vector (the same crystal, the same score) or an orientation beyond 2 pi.  The
+/// score depends on every parameter, so a move that is not undone shows in the score.
+pub fn oor_lj_suite(rng: &mut Pcg64Mcg, count: usize) -> Vec<Run> {
+    let mut runs = vec![];
+    for k in 0..count {
+        let gname = GROUPS[k % GROUPS.len()];
+        let g = group(gname);
+        let st = match PotentialState::from_group(LJShape2::from_trimer(0.637556, 120., 1.), &g) {
+            Ok(s) => s,
+            Err(_) => continue,
+        };
+        // relax first (not recorded), so that most proposals of the recorded stage are rejected
+        let mut b = packing::BuildOptimiser::default();
+        b.seed(k as u64).steps(600).inner_steps(200).kt_start(0.).max_step_size(0.05);
+        let relaxed = b.build().optimise_state(st);
+        let mut j = match serde_json::to_value(&relaxed) {
+            Ok(j) => j,
+            Err(_) => continue,
+        };
+        let site = &mut j["occupied_sites"][0];
+        match rng.gen_range(0, 3) {
+            0 => site["x"] = serde_json::json!(site["x"].as_f64().unwrap() + 1.),
+            1 => site["y"] = serde_json::json!(site["y"].as_f64().unwrap() - 1.),
+            _ => site["angle"] = serde_json::json!(site["angle"].as_f64().unwrap() + 2. * PI),
+        }
+        let st2: PotentialState<LJShape2> = match serde_json::from_value(j) {
+            Ok(s) => s,
+            Err(_) => continue,
+        };
+        if st2.score().is_none() {
+            continue;
+        }
+        let mut req = random_req(rng, 100);
+        req.steps = pick(rng, &[30u64, 60, 100]);
+        req.kt_start = pick(rng, &[0., 0., 0.05]);
+        req.max_step = pick(rng, &[0.01, 0.05]);
+        let desc = format!("#{} out-of-range-start {} relaxed lj trimer", k, gname);
         chain(&desc, gname, st2, &[req], &mut runs);
     }
     runs
